@@ -770,9 +770,15 @@ class Interp:
         self.module.store.vars['__name__'] = av(const('bronzebeard.asm'))
         self.module.store.vars['__file__'] = av(STR_S)
         self.in_module_init = True
-        out = self.exec_block(self.module, tree.body, [self.module.store])
-        if out.next:
-            self.module.store = join_stores(out.next)
+        cur = [self.module.store]
+        for st_ in tree.body:
+            o_ = self.exec_block(self.module, [st_], cur)
+            if not o_.next:
+                if isinstance(st_, ast.If) and unparse(st_.test).replace('"', "'") == "__name__ == '__main__'":
+                    continue
+                raise self.err(st_, 'a module-level statement does not complete in the interpretation (`{}`)'.format(unparse(st_).split('\n')[0][:60]))
+            cur = [join_stores(o_.next)]
+        self.module.store = cur[0]
         self.in_module_init = False
         # mnemonic bindings: module-level partial(...) objects (by name or inside a module-level table).  That the integer
         # such a binding returns fits its instruction width is the theorem of C01 / C02 (layout rules), taken as given here.
@@ -2467,6 +2473,11 @@ class Interp:
                 if tag is not None and not (isinstance(tag, tuple) and tag[0] == 'ctor'):
                     return map_tags(v, lambda t: tag)
                 return v
+            ci_ = self.classes[cls]
+            if ci_.record and attr in ('_replace', '_asdict', '_fields') and self.find_method(cls, attr)[1] is None:
+                if attr == '_fields':
+                    return av(('seq', 'tuple', tuple(av(const(f_)) for f_, _, _ in self.record_fields(ci_))))
+                return av(('lib', '<nt' + attr + '>', a))
             c, q = self.find_method(cls, attr)
             if q is not None:
                 decs = self.decor.get(q, set())
@@ -4161,6 +4172,17 @@ class Interp:
                         break
                 if len(a[2]) > 1 and a[1] != '<methodcaller>':
                     r = av(('list', erase_tags(r)))
+            elif k == 'lib' and a[1] in ('<nt_replace>', '<nt_asdict>'):
+                obj = a[2]
+                if a[1] == '<nt_asdict>':
+                    r = self.vars_of(fr, av(obj), node)
+                else:
+                    ci_ = self.classes[obj[1]]
+                    kw = {}
+                    for f_, _, init in self.record_fields(ci_):
+                        if init:
+                            kw[f_] = args.kw[f_] if f_ in args.kw else self.load_attr_atom(fr, obj, f_, node)
+                    r = self.construct(fr, base_class(obj[1]), Args([], None, kw), node) if all(kw.values()) else BOT
             elif k == 'lib' and a[1] == '<wraps>':
                 r = args.pos[0] if args.pos else av(TOP)
                 for w in r:
@@ -5419,6 +5441,17 @@ class Interp:
                         acc = new
                 return av(('list', erase_tags(acc)))
             return av(('list', parts[0]))
+        if root == 'operator' and name.split('.')[1].strip('_') in ('or', 'and', 'xor', 'add', 'sub', 'mul', 'lshift', 'rshift', 'floordiv', 'mod', 'truediv',
+                                                                       'ior', 'iand', 'ixor', 'iadd', 'isub', 'imul', 'concat', 'pow') and len(pos) == 2:
+            opn = name.split('.')[1].strip('_')
+            opn = opn[1:] if opn[0] == 'i' and opn[1:] in ('or', 'and', 'xor', 'add', 'sub', 'mul') else opn
+            table = {'or': ast.BitOr, 'and': ast.BitAnd, 'xor': ast.BitXor, 'add': ast.Add, 'concat': ast.Add, 'sub': ast.Sub, 'mul': ast.Mult,
+                     'lshift': ast.LShift, 'rshift': ast.RShift, 'floordiv': ast.FloorDiv, 'mod': ast.Mod, 'truediv': ast.Div, 'pow': ast.Pow}
+            return self.binop(fr, table[opn](), pos[0], pos[1], node)
+        if root == 'operator' and name.split('.')[1].strip('_') in ('eq', 'ne', 'lt', 'le', 'gt', 'ge', 'not', 'contains', 'is', 'truth'):
+            return av(BOOL)
+        if root == 'operator' and name.split('.')[1].strip('_') in ('neg', 'pos', 'invert', 'abs', 'index') and x is not None:
+            return frozenset(INT_S if (a == INT_S or a[0] == 'c') else (INT_U if is_int_atom(a) else a) for a in x)
         if name in ('operator.attrgetter', 'operator.itemgetter', 'operator.methodcaller'):
             return av(('lib', '<' + name.split('.')[1] + '>', tuple(pos), tuple(sorted(args.kw.items()))))
         if name == 'dataclasses.replace' and x is not None:
@@ -5502,7 +5535,14 @@ class Interp:
                 dv = args.kw.get('defaults')
                 ci.fields = [(f_, None, True) for f_ in fields]
                 if dv is not None:
-                    raise self.err(node, 'namedtuple() defaults are not modelled')
+                    # defaults belong to the rightmost fields
+                    mode, ds = self.iteration(fr, dv, node)
+                    if mode != 'exact' or len(ds) > len(fields):
+                        raise self.err(node, 'namedtuple() defaults of unknown shape')
+                    for f_, d_ in zip(fields[len(fields) - len(ds):], ds):
+                        hidden = '__dc_{}_{}'.format(cname, f_)
+                        self.module.store.vars[hidden] = d_
+                        ci.fields = [(n_, hidden if n_ == f_ else df_, i_) for n_, df_, i_ in ci.fields]
                 self.classes[cname] = ci
                 self.make_record_class(ci, 'namedtuple', stub)
             return av(('cls', cname))
